@@ -9,7 +9,7 @@ from common import Driver, DriverFailure, REPO
 
 LEVEL = "proof"
 MANIFEST = dict(
-    text="The quantifier (every await point of discovery, of each handshake step, and steady state) is a finite table regenerated from the source together with the "
+    text="The quantifier (every await point of discovery, of each handshake step, and steady state) is a finite table regenerated from the source together with the  The crash-point table has one entry per suspension point of the regenerated skeletons of _connect and discover (crash_points_cover_every_suspension: two independent translators agree)."
          "teardown facts (what disconnect / discover / __aexit__ / facade.disconnect / _connect / the sequence pump do) and the step lists of the teardown procedures; "
          "the Lean theorems are kernel evaluations over the WHOLE table: the FULL statement no_leak_at_any_point (at every point a reset or a context exit leaves no "
          "endpoint open, no task alive, no observer registered, and the pump alive after a reset - it holds since the three fix: commits 54b7766 / a588de4 / 0bd0a89; "
@@ -316,7 +316,7 @@ def show(e, t, o, p):
 
 
 def run(ctx):
-    st = translate.run(["CrashPoints"])
+    st = translate.run(["CrashPoints", "Skeletons"])
     ctx.cov["translator"] = st
     if st["CrashPoints"] != "ok":
         ctx.obligation_broken("translate:CrashPoints", st["CrashPoints"])
